@@ -415,7 +415,9 @@ func init() {
 		projection: "public-API classification of every error: RootCause, errors.Is with the execution's sentinel, errors.As(dig.Error), PanicError and its value, IsCycleDetected, identity of the invoked function's error, escaped panics",
 		kinds:      []string{"class", "root"},
 		extra: func(k, d string) bool {
-			return k == "verdict.invoke" && contains(d, "fail", "panic", "invokeerr")
+			// "IsCycleDetected is true exactly for cycle rejections": a cycle verdict where the
+			// specification has none (or the reverse) is a misclassified error
+			return (k == "verdict.invoke" && contains(d, "fail", "panic", "invokeerr")) || (strings.HasPrefix(k, "verdict.") && contains(d, "want cycle", "got cycle"))
 		},
 		run: genericRun(stagePlan{
 			covers: []coverPlan{
